@@ -589,8 +589,19 @@ func (ex *c18Exchange) fingerprint(conc int, client string, faults bool, logger 
 	if conc > 8 {
 		cb = "N"
 	}
-	return fmt.Sprintf("%s|rq%s,%v,%d|%s|%d,i%d|rs%s,%v,%d,f%v|gz%s|tr%s|c%s|%s|f%v|l%v", ex.Method, c18SizeBucket(ex.ReqBody), ex.ReqDeclared, c18Sign(ex.ReqCLDelta), ex.ReadMode,
-		ex.Status, len(ex.Info), c18SizeBucket(ex.RespBody), ex.RespDeclared, c18Sign(ex.RespCLDelta), ex.FlushEvery > 0 || ex.FlushAfterHeader, ex.Gzip, tr, cb, client, faults, logger)
+	mc := "other"
+	switch ex.Method {
+	case "GET", "HEAD":
+		mc = ex.Method
+	case "POST", "PUT", "PATCH", "QUERY", "PROPFIND":
+		mc = "body-method"
+	}
+	sc := fmt.Sprintf("%dxx", ex.Status/100)
+	if ex.noBodyStatus() {
+		sc = "bodyless"
+	}
+	return fmt.Sprintf("%s|rq%s,%v,%d|%s|%s,i%d|rs%s,%v,%d,f%v|gz%s|tr%s|c%s|%s|f%v|l%v", mc, c18SizeBucket(ex.ReqBody), ex.ReqDeclared, c18Sign(ex.ReqCLDelta), ex.ReadMode,
+		sc, min(len(ex.Info), 1), c18SizeBucket(ex.RespBody), ex.RespDeclared, c18Sign(ex.RespCLDelta), ex.FlushEvery > 0 || ex.FlushAfterHeader, ex.Gzip, tr, cb, client, faults, logger)
 }
 
 func c18Sign(n int) int {
